@@ -5,6 +5,11 @@ Model: `Model/Paths.lean` (`topPath`, `removeBottleneck`, `subtractPath`, `paths
 Proof files: `Proofs/C17Ext` (order on −∞/finite/+∞), `C17Sum`, `C17Top` (search-loop invariants and
 the Dijkstra argument), `C17TopPath`, `C17Paths`, `C17Loop`, `C17Flow` (acyclic conserved flows).
 
+Not a theorem here: "the caller's flux matrix is left unchanged".  The model is purely functional
+(`paths n F …` cannot modify `F`), so that clause has no Lean content; it is established by the
+correspondence run only (byte snapshots of the matrix and of both index containers around every real
+call, including in-place `remove_path` callables and repeated calls on the same objects).
+
 Vocabulary (from the proof files):
 * `edges p`      consecutive pairs of `p`;
 * `bneck F q`    minimum of `F` over the edges of the walk `q` (`+inf` for a single state);
